@@ -496,5 +496,154 @@ theorem pinned_exact {T : Tables} (hT : TablesOK T) {b : Board} (hs : Struct b)
     · exact (pinBit_iff hT hs _ _ _).mpr
         ⟨h1, not_empty_of_colorAt ((colorAt_iff_cbit hs y b.stm).mpr hc), h1z⟩
 
+/-! ### the kings are not adjacent -/
+
+/-- a king's attack on the abstract position is the king table, read either way round -/
+theorem attacks_king_eq {b : Board} {x k : Sq} {c : Color} (hx : b.content x = some (.king, c)) :
+    attacks b.abs x k = (Geom.king k).getLsbD x.val := by
+  rw [attacks_eq, abs_board, hx]
+  simp only [sliderAligned, leaperAtt, Bool.false_and, Bool.false_or]
+  rw [← mem_king_spec, mem_king_symm]
+
+/-- bit form of `KingsApart`: no king stands on a square of the king table of the mover's king -/
+theorem kingsApart_of_bits {T : Tables} (hT : TablesOK T) {b : Board} (hs : Struct b)
+    (h : T.king (b.kingSquare b.stm) &&& b.kings = 0#64) : KingsApart b := by
+  intro x hx
+  rw [attacks_king_eq hx]
+  have hkb : b.kings.getLsbD x.val = true := ((hs.content_some_iff x .king _).mp hx).1
+  have := (BB.eq_zero_iff _).mp h x
+  rw [BitVec.getLsbD_and, hkb, Bool.and_true, hT.king] at this
+  exact this
+
+/-- `is_sane` checks the white king's neighbourhood; by symmetry of the king table this covers both sides -/
+theorem kingsApart_of_sane {T : Tables} (hT : TablesOK T) {b : Board} (hs : Struct b) (hf : SaneFacts T b) :
+    KingsApart b := by
+  have hstm : b.stm = .white ∨ b.stm = .black := by cases b.stm <;> simp
+  rcases hstm with hw | hb
+  · apply kingsApart_of_bits hT hs
+    rw [hw]; exact hf.kings_apart
+  · intro x hx
+    rw [attacks_king_eq hx]
+    rw [hb] at hx ⊢
+    have hxw : x = b.kingSquare .white := by
+      apply (kingSquare_bit (c := .white) hf.wking x).mp
+      obtain ⟨h1, h2⟩ := (hs.content_some_iff x .king .white).mp hx
+      rw [BitVec.getLsbD_and, Bool.and_eq_true]; exact ⟨h1, h2⟩
+    have hkb := content_kingSquare hs (c := .black) hf.bking
+    have hkbit : b.kings.getLsbD (b.kingSquare .black).val = true :=
+      ((hs.content_some_iff _ .king .black).mp hkb).1
+    have := (BB.eq_zero_iff _).mp hf.kings_apart (b.kingSquare .black)
+    rw [BitVec.getLsbD_and, hkbit, Bool.and_true, hT.king] at this
+    rw [hxw, mem_king_symm]
+    exact this
+
+theorem kingsApart_of_isSane {T : Tables} (hT : TablesOK T) {b : Board} (hs : Struct b)
+    (h : b.isSane T = true) : KingsApart b := kingsApart_of_sane hT hs (isSane_facts h)
+
+/-- `is_sane`: the side to move has exactly one king -/
+theorem oneKing_of_sane {T : Tables} {b : Board} (hf : SaneFacts T b) (c : Color) :
+    (b.kings &&& b.colorCombined c).popcnt = 1 := by
+  cases c
+  · exact hf.wking
+  · exact hf.bking
+
+/-! ### occupancy queries -/
+
+theorem colorOn_some_iff {b : Board} (hs : Struct b) (s : Sq) (c : Color) :
+    b.colorOn s = some c ↔ (b.colorCombined c).getLsbD s.val = true := by
+  cases hw : b.white.getLsbD s.val with
+  | true =>
+    have hb := hs.color_disj s.val hw
+    rw [colorOn_white hw]
+    cases c
+    · exact ⟨fun _ => hw, fun _ => rfl⟩
+    · constructor
+      · intro h; cases h
+      · intro h
+        have h' : b.black.getLsbD s.val = true := h
+        rw [hb] at h'; cases h'
+  | false =>
+    cases hb : b.black.getLsbD s.val with
+    | true =>
+      rw [colorOn_black hw hb]
+      cases c
+      · constructor
+        · intro h; cases h
+        · intro h
+          have h' : b.white.getLsbD s.val = true := h
+          rw [hw] at h'; cases h'
+      · exact ⟨fun _ => hb, fun _ => rfl⟩
+    | false =>
+      rw [colorOn_none hw hb]
+      constructor
+      · intro h; cases h
+      · intro h
+        cases c
+        · have h' : b.white.getLsbD s.val = true := h
+          rw [hw] at h'; cases h'
+        · have h' : b.black.getLsbD s.val = true := h
+          rw [hb] at h'; cases h'
+
+theorem colorOn_none_iff {b : Board} (hs : Struct b) (s : Sq) :
+    b.colorOn s = none ↔ b.combined.getLsbD s.val = false := by
+  rw [colorOn_bits, hs.comb_color]
+  cases hw : b.white.getLsbD s.val <;> cases hb : b.black.getLsbD s.val <;> simp
+
+theorem combined_eq_colors {b : Board} (hs : Struct b) : b.combined = b.white ||| b.black := by
+  apply BitVec.eq_of_getLsbD_eq
+  intro i _
+  rw [hs.comb_color, BitVec.getLsbD_or]
+
+theorem combined_eq_pieces {b : Board} (hs : Struct b) :
+    b.combined = b.pawns ||| b.knights ||| b.bishops ||| b.rooks ||| b.queens ||| b.kings := by
+  apply BitVec.eq_of_getLsbD_eq
+  intro i _
+  rw [Bool.eq_iff_iff, hs.comb_piece]
+  simp only [BitVec.getLsbD_or, Bool.or_eq_true]
+  constructor
+  · rintro ⟨p, hp⟩
+    cases p <;> simp only [Board.pbit, Board.pieces] at hp <;> simp [hp]
+  · rintro (((((hp | hp) | hp) | hp) | hp) | hp)
+    · exact ⟨.pawn, hp⟩
+    · exact ⟨.knight, hp⟩
+    · exact ⟨.bishop, hp⟩
+    · exact ⟨.rook, hp⟩
+    · exact ⟨.queen, hp⟩
+    · exact ⟨.king, hp⟩
+
+theorem colors_disjoint {b : Board} (hs : Struct b) : b.white &&& b.black = 0#64 := by
+  apply BitVec.eq_of_getLsbD_eq
+  intro i _
+  rw [BitVec.getLsbD_and, BitVec.getLsbD_zero]
+  cases hw : b.white.getLsbD i with
+  | false => rfl
+  | true => rw [hs.color_disj i hw]; rfl
+
+theorem pieces_disjoint {b : Board} (hs : Struct b) (p q : Piece) (h : p ≠ q) :
+    b.pieces p &&& b.pieces q = 0#64 := by
+  apply BitVec.eq_of_getLsbD_eq
+  intro i _
+  rw [BitVec.getLsbD_and, BitVec.getLsbD_zero]
+  cases hp : (b.pieces p).getLsbD i with
+  | false => rfl
+  | true =>
+    have := hs.piece_disj i p q h hp
+    rw [Bool.true_and]; exact this
+
 end CheckPin
+
+/-! ### cached check/pin fields are the from-scratch ones -/
+
+/-- the cached `pinned`/`checkers` fields of `b` are what `update_pin_info` computes from scratch -/
+def Board.PinOK (T : Tables) (b : Board) : Prop := b.updatePinInfo T = b
+
+theorem Board.PinOK.updatePinInfo (T : Tables) (b : Board) : (b.updatePinInfo T).PinOK T :=
+  updatePinInfo_idem T b
+
+theorem Board.PinOK.tryFrom {T : Tables} {bd : Builder} {b : Board} (h : Board.tryFrom T bd = some b) :
+    b.PinOK T := (tryFrom_spec T bd b h).2.2.2.2.2.2.1
+
+theorem Board.PinOK.nullMove {T : Tables} {b b' : Board} (h : b.nullMove T = some b') : b'.PinOK T :=
+  (nullMove_spec T b b' h).2.2.2.2.2
+
 end Chess
